@@ -13,7 +13,7 @@ variable {V : Type} [Val V]
 theorem callMethod_frame (d : Decl V) (obs : Bool) (act : Action V) (st : Option (Child V)) (e : PyErr)
     (h : (callMethod d obs act st).2 = .raised e) : (callMethod d obs act st).1 = st := by
   obtain ⟨name, kind, ln⟩ := d
-  cases kind <;> cases act <;> simp only [callMethod] at h ⊢ <;> (repeat' split at h) <;> simp_all
+  cases kind <;> cases act <;> simp only [callMethod] at h ⊢ <;> (repeat' split at h) <;> (repeat' split) <;> simp_all
 
 /-- a method call on an object without value state leaves it without value state -/
 theorem callMethod_none (d : Decl V) (obs : Bool) (act : Action V) : (callMethod d obs act none).1 = none := by
